@@ -47,6 +47,32 @@ class FuncInfo:
         return self is other
 
 
+class WrappedFuncInfo(FuncInfo):
+    """The function object a plain decorator of the package leaves in place of the one it decorates: the nested function the decorator
+    returns, with the decorator's parameter bound to the decorated function (`bound`).  It answers to the name of the function it wraps
+    (functools.wraps or not, that is the function the registries and the reports are about)."""
+
+    def __init__(self, inner: FuncInfo, bound: dict, wrapped: FuncInfo, via: FuncInfo):
+        FuncInfo.__init__(self, inner.module, inner.qualname, inner.node, inner.parent)
+        self.bound = bound
+        self.wrapped = wrapped
+        self.via = via
+
+    @property
+    def name(self):
+        return self.wrapped.name
+
+    @property
+    def fq(self):
+        return f'{self.wrapped.fq}@{self.via.name}'
+
+    def __hash__(self):
+        return hash(self.fq) ^ id(self.node)
+
+    def __eq__(self, other):
+        return self is other
+
+
 @dataclasses.dataclass
 class ClassInfo:
     module: 'Module'
